@@ -578,7 +578,26 @@ func (e *Exec) store(p *PtrV, nv Value, site string) {
 	// memory of the linted object exists before the run even when its symbolic model is materialised lazily
 	// (on first access, i.e. after the monitor was switched on)
 	inSpare := p.O.Spare > 0 && len(p.Path) > 0 && p.Path[0] >= p.O.Spare-1
-	if e.monitorOn && e.initMode == 0 && (p.O.Born <= e.monitorEpoch || strings.HasPrefix(p.O.Tag, "lazy:")) && !isGhostTag(p.O.Tag) && !inSpare {
+	ofObject := p.O.Born <= e.monitorEpoch || strings.HasPrefix(p.O.Tag, "lazy:")
+	if e.monitorOn && e.initMode == 0 && (ofObject || strings.HasPrefix(p.O.Tag, "input:")) {
+		// publishing: the stored value refers to an object made during the run
+		var ref *Obj
+		switch x := nv.(type) {
+		case *SliceV:
+			ref = x.O
+		case *PtrV:
+			ref = x.O
+		}
+		if ref != nil && ref.Born > e.monitorEpoch && !strings.HasPrefix(ref.Tag, "lazy:") && (strings.HasPrefix(p.O.Tag, "input:") || strings.HasPrefix(p.O.Tag, "lazy:")) {
+			ref.Published = true
+		}
+	}
+	if e.monitorOn && e.initMode == 0 && p.O.Published && !ofObject && e.curFn != nil && strings.Contains(e.curFn.String(), "github.com/zmap/zlint/") && !isGhostTag(p.O.Tag) {
+		// a store by zlint code into memory the linted object already holds (the owner of such caches - zcrypto -
+		// fills them itself; that is not recorded)
+		e.writes = append(e.writes, WriteRec{Tag: "published:" + p.O.Tag + "|" + p.O.Name, Site: site, Fn: e.curFn.String()})
+	}
+	if e.monitorOn && e.initMode == 0 && ofObject && !isGhostTag(p.O.Tag) && !inSpare {
 		fn := ""
 		if e.curFn != nil {
 			fn = e.curFn.String()
